@@ -43,3 +43,11 @@ Theorem C03_difference : forall (Q1 Q2 : Type) (E1 : EqDec Q1) (E2 : EqDec Q2) (
   wf A -> wf B -> difference_fa A B n m = Some P -> forall w, Lang P w <-> Lang A w /\ ~ Lang B w.
 Proof. exact (@difference_spec). Qed.
 Print Assumptions C03_difference.
+
+(* the product exploration finishes *)
+From Coq Require Import Arith.
+From PFL Require Import Proofs.Totality.
+Theorem C03_intersection_total : forall (Q1 Q2 : Type) (E1 : EqDec Q1) (E2 : EqDec Q2) (A : enfa Q1) (B : enfa Q2), wf A -> wf B ->
+  forall n, (3 * (length (e_states A) * length (e_states B)) < 2 ^ n)%nat -> exists P, intersection A B n = Some P.
+Proof. exact (@intersection_total). Qed.
+Print Assumptions C03_intersection_total.
